@@ -619,6 +619,10 @@ func C06(tier string) {
 			r.Traces(2)
 		}
 	}
+	if tier == "thorough" {
+		// configuration: 32-bit platform (the quick tier of this check, built for GOARCH=386)
+		subRunArch(r, "C06", "386")
+	}
 	r.Finish()
 }
 
